@@ -18,6 +18,7 @@ func init() {
 		g(c, "gElect", gElect)
 		g(c, "gQuorumJoint", gQuorumJoint)
 		g(c, "c10Hup", c10Hup)
+		g(c, "c10Gate", c10Gate) // one configuration change at a time: electorates of consecutive configurations overlap
 	}})
 	register(&PropertyRule{ID: "C12", Explain: "structural necessary conditions of C12 (quorum arithmetic): see DESIGN.md §5 C12", Run: func(c *Check) {
 		g(c, "c12Quorum", c12Quorum)
@@ -28,6 +29,12 @@ func init() {
 		g(c, "c05Extras", c05Extras)
 		g(c, "gMatchAck", gMatchAck)
 		g(c, "nodeLoop", nodeLoop)
+		// what is handed to the application in async mode is durable, and what was handed to the
+		// storage thread is not rewritten under it
+		c.OnlyRules = map[string]bool{"C08.A": true, "C18.A": true}
+		g(c, "gApply", gApply)
+		g(c, "c18Storage", c18Storage)
+		c.OnlyRules = nil
 	}})
 	register(&PropertyRule{ID: "C08", Explain: "structural necessary conditions of C08 (apply stream): see DESIGN.md §5 C08", Run: func(c *Check) {
 		g(c, "gApply", gApply)
